@@ -93,6 +93,25 @@ theorem nil_pointer_is_null (e : Enc) (o : Opts) (ho : o.omitEmpty = false) (tf 
 
 /-! ## the unchanged code -/
 
+/-- **C15 about the code as it is, excluding exactly the named triggers.** A run of an encoder of the
+UNCHANGED code (`Dev.current`) that meets none of the six triggers (`untriggered`, executable: an
+`omitempty` tag in a struct written in tag mode by oj/sen, `UseTags` without `KeyExact`, a `[]byte`
+outside the `appendJSON` type switch in oj/sen, a nil embedded pointer being flattened, a nil pointer
+element under oj's tight writer, a nil container as a map value in alt) describes the reference tree. -/
+theorem untriggered_current_eq_reference (e : Enc) (o : Opts) (ho : o.omitEmpty = false) (tf vf : Nat)
+    (t : GoType) (v : GoVal)
+    (hU : untriggered e Dev.current o tf (planFixed o tf) vf true false t v = true) :
+    encode e Dev.current o tf vf t v = refEncode o tf vf t v := by
+  unfold encode refEncode
+  rw [encVal_untriggered e Dev.current o ho tf vf true false t v hU]
+  exact encVal_fixed_eq_ref o tf vf true false t v
+
+/-- a non-trivial instance of the hypothesis: `T1{A: 1, B: 2, C: 3}` has an `omitempty` tag, so the leak
+trigger is met and the instance is NOT covered; the same struct without the tag is -/
+example : untriggered .oj Dev.current goOpts 4 (planFixed goOpts 4) 4 true false
+    (.struct [] [] [(⟨[65], [], false⟩, .int 0), (⟨[66], [98], false⟩, .ptr (.int 0))])
+    (.struct [.int 1, .nilPtr]) = true := by decide +kernel
+
 /-- C15 at full strength, about the code as it is -/
 def C15_full : Prop :=
   ∀ (e : Enc) (o : Opts) (tf vf : Nat) (t : GoType) (v : GoVal), o.omitNil = false → o.omitEmpty = false →
